@@ -509,17 +509,29 @@ pub fn preprocess_str<T: AsRef<Path>, U: AsRef<Path>, V: BuildHasher>(
                     }
                 }
             }
-            NodeEvent::Enter(RefNode::WhiteSpace(x)) if !skip_whitespace && !strip_comments => {
+            NodeEvent::Enter(RefNode::WhiteSpace(x)) if !skip_whitespace => {
                 if let WhiteSpace::Space(_) = x {
                     let locate: Locate = x.try_into().unwrap();
                     let range = Range::new(locate.offset, locate.offset + locate.len);
                     ret.push(locate.str(&s), Some((path.as_ref(), range)));
                 }
             }
-            NodeEvent::Enter(RefNode::Comment(x)) if !strip_comments => {
+            NodeEvent::Enter(RefNode::Comment(x)) => {
                 let locate: Locate = x.try_into().unwrap();
-                let range = Range::new(locate.offset, locate.offset + locate.len);
-                ret.push(locate.str(&s), Some((path.as_ref(), range)));
+                if !strip_comments {
+                    let range = Range::new(locate.offset, locate.offset + locate.len);
+                    ret.push(locate.str(&s), Some((path.as_ref(), range)));
+                } else {
+                    // A comment is white space: when it is stripped, a separator
+                    // stays so that the tokens on both sides are not joined.
+                    let sep = if locate.str(&s).ends_with('\n') {
+                        "\n"
+                    } else {
+                        " "
+                    };
+                    let range = Range::new(locate.offset, locate.offset + sep.len());
+                    ret.push(sep, Some((path.as_ref(), range)));
+                }
             }
             NodeEvent::Enter(RefNode::IfndefDirective(x)) => {
                 let (_, ref keyword, ref ifid, ref ifbody, ref elsif, ref elsebody, _, _) = x.nodes;
